@@ -1051,20 +1051,12 @@ impl RustGenerator {
                                         writer.line("closure_indirect.push(true);")?;
                                     }
                                 } else {
+                                    // A multi-word variable (tuple, record) is shared with its creator like a
+                                    // one-word one: the closure holds the address of the variable's cell, so an
+                                    // assignment made after the closure was created is seen by it (as on the VM).
                                     writer.line(format!(
-                                        "let captured_upvalue = memory.alloc({alloc_size}usize);"
+                                        "closure_upvalues.push({upvalue_expr});"
                                     ))?;
-                                    writer.line("{")?;
-                                    writer.indented(1, |writer| {
-                                        writer.line(format!(
-                                            "let copied_words = memory.load({upvalue_expr}, {alloc_size}usize)?;"
-                                        ))?;
-                                        writer.line(format!(
-                                            "memory.store(captured_upvalue, &copied_words, {alloc_size}usize)?;"
-                                        ))
-                                    })?;
-                                    writer.line("}")?;
-                                    writer.line("closure_upvalues.push(captured_upvalue);")?;
                                     writer.line("closure_indirect.push(true);")?;
                                 }
                             } else if let Some(value_ty) =
